@@ -40,6 +40,11 @@ CHECKS = {
   text="Theorems sortCols_sorted (keys in sorted order, none lost), expandComb_length / expandComb_getElem? / expandComb_keys (product size, last-key-fastest order as an index recursion, every run carries exactly the keys), expandPosN_getElem?, posSize_ok_iff / posSize_mismatch (aligned positions, unequal lengths rejected), blockRuns_length and combineRuns_length (the arithmetic plan equals the number of runs materialised, for any number of blocks), expand_of_plan / expand_ok_le_cap (the max-runs error is raised exactly when the planned total exceeds the cap, decided before anything is materialised), expand_validation_error. The model is tied to /repo by running the real expand_run_space (dataclass door and YAML door, files in four formats with select/rename) and the Lean model on the same generated specs and comparing ordered run lists / error classes; promptness is observed on specs with up to 1.6e13 planned runs under an address-space and time limit.",
   note="Trusted: Lean kernel; the spec generator/canonicaliser in props/c08.py; file parsing and scalar coercion are outside the model; memory/time behaviour is measured, not proved. No generated side condition (hand-written model + correspondence).",
   design="§7 C08"),
+ "C10": dict(
+  technique="Lean 4 proof over the lifecycle model shared with C06 (the traced run's outcome equals the untraced node loop for every fault plan; induction over the number of reuses of one Pipeline object) + side conditions re-decided on the shape of execute() extracted from the source and on a behavioural probe of the cached canonical spec + real-code differential runs traced vs untraced and run vs re-run",
+  text="Theorems trace_observational (for every fault plan, with a good lifecycle shape the exception class raised and the set of nodes run with a trace driver attached are those of the untraced loop) and reuse_reproducible (if a traced run works on a copy of the cached canonical spec, the n-th run of one Pipeline object records the identities of the first, for every n). The shape and the copy flag are regenerated from /repo on every run. On the real code: generated succeeding and failing pipelines are run untraced and traced at each detail level and must return equal data/context or raise the same exception type and message; each is traced again with fresh objects, with the same Pipeline object and after other executions in the process, and the JSONL files must be equal after removing run_id, timestamps, seq and timing fields.",
+  note="Trusted: Lean kernel; the lexical shape extractor (shared with C06) and the spec probe; reproducibility of record *contents* (summaries, digests) is observed on generated pipelines, not proved; volatile fields are those the documentation names.",
+  design="§7 C10"),
  "C11": dict(
   technique="Lean 4 proof (mutual structural induction over AST trees of any depth) + decidable side condition on the policy table extracted from the real visitor + differential run visitor vs compiled Lean model",
   text="Theorem accepts_confines: for every visitor policy satisfying the decidable condition Policy.total, every tree of any depth that the policy accepts contains only whitelisted elements, declared names and direct whitelisted calls, in every child position. The policy table and the interpreter's AST grammar are re-extracted from /repo on every run (single-position probes of the real _SafeVisitor) and `Policy.total Generated.policy` is re-proved by kernel evaluation. The extracted table is validated against the real visitor on spine-enumerated trees to depth 3 (thorough: all of them) and the public compile() API is run on an escape-idiom corpus in every argument/keyword/operand position.",
